@@ -294,20 +294,51 @@ def insertSorted (a : Nat) : List Nat → List Nat
   | b :: l => if a ≤ b then a :: b :: l else b :: insertSorted a l
 def sortNat (l : List Nat) : List Nat := l.foldr insertSorted []
 
-/-- `force_down`: the GR timer task is woken first, then every LLGR timer that was armed at the
-    time of the call; a live session is told to close and ends with `AdminShutdown`. -/
+/-- `force_down`: the GR timer task is woken first (and, being forced, fires the LLGR timers it
+    arms), then every LLGR timer that was armed at the time of the call; a live session is told to
+    close and ends with `AdminShutdown`. -/
 def forceDown (g : G) : G :=
   let armed := sortNat g.llgrTimers
   let g1 := if g.grTimer then { g with grTimer := false } else g
   let g2 := { g1 with llgrTimers := [] }
+  -- the restart timer task, woken with `forced = true`: the LLGR timers it arms are fired at once
   let g3 := if g.grTimer then grTimerExpired g2 else g2
+  let newly := if g.grTimer then sortNat g3.llgrTimers else []
+  let g3 := if g.grTimer then { g3 with llgrTimers := [] } else g3
   let g4 := armed.foldl llgrTimerExpired g3
-  sessionDown g4 .admin
+  let g5 := newly.foldl llgrTimerExpired g4
+  sessionDown g5 .admin
+
+/-- every timer that is armed elapses (restart timer first; the LLGR timers it arms are new and keep
+    running): the natural-expiry path of the timer tasks -/
+def waitAll (g : G) : G := (sortNat g.llgrTimers).foldl fireLlgr (fireGr g)
+
+/-- the families the local speaker advertises (MP-BGP, GR with the N-bit, LLGR) in the harness -/
+def localFams : List Fam := [0, 1, 2]
+
+/-- What a session negotiates (`PeerCodec::negotiate`, `negotiate_gr`, `negotiate_llgr`, and the
+    restriction to the session's families in `apply_outputs`): the session families are the MP-BGP
+    families both sides advertise; GR / LLGR hold for the session families both sides list in the
+    capability; an empty result is `None`. -/
+def negotiate (peerFams : List Fam) (peerGr : Option NegGr) (peerLlgr : Option (List Fam)) : Sess :=
+  let fams := localFams.filter (peerFams.contains ·)
+  let gr := match peerGr with
+    | some n =>
+        let fs := fams.filter (n.fams.contains ·)
+        if fs.isEmpty then none else some { fams := fs, nbit := n.nbit }
+    | none => none
+  let llgr := match peerLlgr with
+    | some l =>
+        let fs := fams.filter (l.contains ·)
+        if fs.isEmpty then none else some fs
+    | none => none
+  { fams := fams, gr := gr, llgr := llgr }
 
 /-- events of a history -/
 inductive Ev where
-  /-- a session reaches Established: its families, negotiated GR (families, N-bit), negotiated LLGR
-      families, and whether the local speaker is itself in selection deferral -/
+  /-- a session reaches Established: the peer's MP-BGP families, its GR capability (families,
+      N-bit), its LLGR capability families, and whether the local speaker is itself in selection
+      deferral -/
   | est (fams : List Fam) (gr : Option NegGr) (llgr : Option (List Fam)) (localRestarting : Bool)
   | ann (f : Fam) (n : Nat) (noLlgr lsc : Bool)      -- UPDATE announcing prefix n in family f
   | eor (f : Fam)
@@ -318,6 +349,7 @@ inductive Ev where
   | force                                            -- force_down (shutdown / reset / delete / BFD)
   | disable                                          -- disable_peer: admin_down := true, force_down
   | enable                                           -- enable_peer: admin_down := false
+  | wait                                             -- real time passes: every armed timer elapses
   deriving DecidableEq, Repr, Inhabited
 
 def step (g : G) : Ev → G
@@ -325,8 +357,9 @@ def step (g : G) : Ev → G
       match g.sess with
       | some _ => g                                  -- one established session at a time (C07)
       | none =>
-          let g := { g with sess := some { fams := fams, gr := gr, llgr := llgr } }
-          onEstablished g ((gr.map (·.fams)).getD []) lr
+          let s := negotiate fams gr llgr
+          let g := { g with sess := some s }
+          onEstablished g ((s.gr.map (·.fams)).getD []) lr
   | .ann f n nl lc =>
       match g.sess with
       | none => g
@@ -345,6 +378,7 @@ def step (g : G) : Ev → G
   | .force => forceDown g
   | .disable => if g.adminDown then g else forceDown { g with adminDown := true }
   | .enable => { g with adminDown := false }
+  | .wait => waitAll g
 
 /-- what is observed after each step -/
 structure RouteObs where
